@@ -10,6 +10,7 @@ from autoarray.dataset.imaging.dataset import Imaging
 from autoarray.inversion.inversion.dataset_interface import DatasetInterface
 from autoarray.inversion.inversion.imaging.abstract import AbstractInversionImaging
 from autoarray.inversion.linear_obj.linear_obj import LinearObj
+from autoarray.inversion.linear_obj.func_list import AbstractLinearObjFuncList
 from autoarray.inversion.pixelization.mappers.abstract import AbstractMapper
 from autoarray.inversion.inversion.settings import SettingsInversion
 from autoarray.structures.arrays.uniform_2d import Array2D
@@ -117,7 +118,11 @@ class InversionImagingMapping(AbstractInversionImaging):
         The calculation is described in more detail in `inversion_util.data_vector_via_blurred_mapping_matrix_from`.
         """
 
-        if self.preloads.data_vector_mapper is not None:
+        # The preloaded mapper data vector has zeros in the entries of linear function lists, so it is only the
+        # complete data vector when every linear object is a mapper.
+        if self.preloads.data_vector_mapper is not None and not self.has(
+            cls=AbstractLinearObjFuncList
+        ):
             return self.preloads.data_vector_mapper
 
         if self.preloads.operated_mapping_matrix is not None:
